@@ -26,7 +26,7 @@ def configs_for(ep, tier, seed, idx):
     tagsets = [(), ('kv',), ('bare',), ('kv', 'bare'), ('bare', 'kv'), ('kv', 'kv')]
     if tier == 'thorough':
         tagsets += [('kv', 'bare', 'kv'), ('bare', 'bare', 'kv')]
-    dtagsets = [(), ('kv',), ('bare',), ('kv', 'bare'), ('kv', 'kv'), ('bare', 'bare')] if tier == 'quick' else [(), ('kv',), ('bare',), ('kv', 'bare'), ('bare', 'kv'), ('kv', 'kv'), ('bare', 'bare')]
+    dtagsets = [(), ('kv',), ('bare',), ('kv', 'bare'), ('bare', 'kv'), ('kv', 'kv'), ('bare', 'bare')] if tier == 'quick' else [(), ('kv',), ('bare',), ('kv', 'bare'), ('bare', 'kv'), ('kv', 'kv'), ('bare', 'bare')]
     prefixes = [(False, 0), (False, 1), (False, 2), (True, 0)]
     # plain form: client-side configuration only
     for (pe, pd), dt, dc in itertools.product(prefixes, dtagsets, (False, True)):
